@@ -105,4 +105,26 @@ ASG(BM_ASSIGNS(set)) FRE(set->ulongs)
 ENS(RET == 0 ==> GBIT(set))
 ;
 
+/* compare_inclusion: the four classes that need a universally quantified hypothesis.
+ * Together with the INTERSECTS clause of the base contract the five cases are exhaustive. */
+#define NONEMPTYAT(s, g) (W(s, g) != ZEROW || T(s))
+int hwloc_bitmap_compare_inclusion__q(const struct hwloc_bitmap_s * set1, const struct hwloc_bitmap_s * set2)
+REQ(BMQ(set1))
+REQ(__CPROVER_pointer_equals(set2, set1) || BMQ(set2))
+REQ(q_case >= 1 && q_case <= 4)
+REQ(q_case == 1 ==> (T(set1) == T(set2) && ALLW(ka, MAXC(set1, set2), W(set1, ka) == W(set2, ka))))
+REQ(q_case == 2 ==> ((!T(set1) || T(set2)) && ALLW(kb, MAXC(set1, set2), (W(set1, kb) & ~W(set2, kb)) == ZEROW)
+                     && ((W(set2, g_k) & ~W(set1, g_k)) != ZEROW || (T(set2) && !T(set1)))))
+REQ(q_case == 3 ==> ((!T(set2) || T(set1)) && ALLW(kc, MAXC(set1, set2), (W(set2, kc) & ~W(set1, kc)) == ZEROW)
+                     && ((W(set1, g_k) & ~W(set2, g_k)) != ZEROW || (T(set1) && !T(set2)))))
+REQ(q_case == 4 ==> (!(T(set1) && T(set2)) && ALLW(kd, MAXC(set1, set2), (W(set1, kd) & W(set2, kd)) == ZEROW)
+                     && NONEMPTYAT(set1, g_k) && NONEMPTYAT(set2, g_k2)))
+WIT_B(0, set1) WIT_B(1, set2) WIT_ALIAS(set2 == set1 ? 1 : 0)
+ASG()
+ENS(q_case == 1 ==> RET == HWLOC_BITMAP_EQUAL)
+ENS(q_case == 2 ==> RET == HWLOC_BITMAP_INCLUDED)
+ENS(q_case == 3 ==> RET == HWLOC_BITMAP_CONTAINS)
+ENS(q_case == 4 ==> RET == HWLOC_BITMAP_DIFFERENT)
+;
+
 #endif
